@@ -3,6 +3,7 @@ package c01
 
 import (
 	"fmt"
+	"os"
 	"sort"
 	"strings"
 	"time"
@@ -200,6 +201,13 @@ func Run(ctx *core.Ctx) {
 		return &sess{ctx: ctx, s: s, c: c, m: kmodel.New()}
 	}
 
+	if os.Getenv("VERIF_C01_SANONLY") != "" {
+		// debugging aid: only the sanitizer builds
+		sanitizerRun(ctx)
+		ctx.Distinct("sanitizer-only-a")
+		ctx.Distinct("sanitizer-only-b")
+		ctx.Finish()
+	}
 	// ---- workload A: state graph sweep
 	sweep(ctx, newSess)
 
@@ -236,7 +244,69 @@ func Run(ctx *core.Ctx) {
 		ctx.Count("programs", 1)
 		ss.c.Close()
 	}
+	if ctx.Thorough() {
+		sanitizerRun(ctx)
+	}
 	ctx.Finish()
+}
+
+// sanitizerRun repeats random programs with hostile lengths (around the varint
+// boundaries of the packed object head and field list) against the ASan build
+// and the race build (which implies checkptr). A sanitizer report or a crash is
+// a violation; replies and dumps are still compared with the model.
+func sanitizerRun(ctx *core.Ctx) {
+	for _, kind := range []string{"asan", "race"} {
+		bin, err := srv.Build(kind)
+		if err != nil {
+			ctx.Count("sanitizer_build_failed:"+kind, 1)
+			ctx.Logf("%s build failed: %v", kind, err)
+			continue
+		}
+		s, err := srv.Start(srv.Opts{Bin: bin, ReadyTimeout: 120 * time.Second})
+		if err != nil {
+			ctx.Count("sanitizer_start_failed:"+kind, 1)
+			continue
+		}
+		lens := []int{0, 1, 127, 128, 129, 255, 256, 16383, 16384, 16385, 70000}
+		mk := func(n int, c byte) string { return strings.Repeat(string(c), n) }
+		for p := 0; p < 40 && ctx.Violations() < 25; p++ {
+			if !s.Alive() {
+				break
+			}
+			c, err := respc.Dial(s.Addr(), 5*time.Second)
+			if err != nil {
+				break
+			}
+			c.Timeout = 60 * time.Second
+			c.Do("FLUSHDB")
+			ss := &sess{ctx: ctx, s: s, c: c, m: kmodel.New()}
+			g := kmodel.RichGen(ctx.Rng)
+			// hostile lengths for ids, field names and values
+			g.IDs = append(g.IDs, mk(lens[ctx.Rng.Intn(len(lens))]+1, 'i'), mk(lens[ctx.Rng.Intn(len(lens))]+1, 'j'))
+			g.Fields = append(g.Fields, mk(lens[1+ctx.Rng.Intn(len(lens)-1)], 'f'), mk(lens[1+ctx.Rng.Intn(len(lens)-1)], 'g'))
+			okAll := true
+			for i := 0; i < 300; i++ {
+				cmd := g.Next()
+				if ctx.Rng.Intn(6) == 0 && (strings.EqualFold(cmd[0], "fset")) && len(cmd) >= 5 {
+					cmd[len(cmd)-1] = mk(lens[ctx.Rng.Intn(len(lens))], 'v') + "x"
+				}
+				if !ss.step(cmd) {
+					okAll = false
+					break
+				}
+			}
+			if okAll && !ss.dead {
+				ss.compareDump("(sanitizer build " + kind + ")")
+			}
+			c.Close()
+			ctx.Count("sanitizer_programs:"+kind, 1)
+		}
+		time.Sleep(100 * time.Millisecond)
+		if crashed, site := s.Crashed(); crashed {
+			ctx.Violation("sanitizer:"+kind+":"+site, kind+" build reported: "+site, map[string]any{"stderr": s.StderrTail(4000)})
+		}
+		s.Kill9()
+	}
 }
 
 func stateKey(m *kmodel.Model) string {
